@@ -354,7 +354,7 @@ def fam_failpos(g, prop, count, types):
         lst = []
         for i in range(kk):
             n = g.r.randint(2, 5)
-            A = arrow_matrix(n + 2, cplx) if g.r.random() < 0.4 else sweep_matrix(g, ty, n)
+            A = arrow_matrix(n + g.r.choice([2, 2, 6, 9]), cplx) if g.r.random() < 0.5 else sweep_matrix(g, ty, n)
             n = max(k[0] for k in A) + 1
             fn = g.r.choice(["gssvx", "gssvx", "gsisx"])
             ilu = fn == "gsisx"
@@ -367,7 +367,7 @@ def fam_failpos(g, prop, count, types):
             # "@expand": only the allocation requests made by ?expand (factor-growth requests) are failed;
             # sticky 0 = that one request fails (a smaller retry may succeed), 1 = every request from the k-th on
             for sticky in (0, 1):
-                for k in range(1, 10):
+                for k in range(1, 10 if n <= 7 else 22):
                     lines = list(head) + ["failalloc @expand 0 %d %d" % (k, sticky)] + gssvx_block(work=None, events=3, fn=fn) + ["nofail"]
                     lst.append({"id": "%s-failpos%s-%03dk%02ds%d-%s" % (prop, "ilu" if ilu else "", i, k, sticky, ty), "lines": lines, "n": n})
         out[ty] = lst
@@ -375,14 +375,14 @@ def fam_failpos(g, prop, count, types):
 
 
 # ----------------------------------------------------------------------------- C05 / C06
-def scaled_matrix(g, n, cplx, spread):
+def scaled_matrix(g, n, cplx, spread, mode=None):
     """power-of-two valued matrix with rows / columns scaled by powers of two (exact equilibration, outcomes N/R/C/B)"""
     r = g.r
     if r.random() < 0.5:
         A = g.lu_product(n, cplx)
     else:
         A, _ = g.matrix(n, n, cplx, style="pow2", kind=r.choice(["dense", "sparse", "band", "arrow", "zerodiag"]))
-    mode = r.choice(["none", "rows", "cols", "both"])
+    mode = mode or r.choice(["none", "rows", "cols", "both"])
     rs = [2.0 ** r.randint(-spread, spread) if mode in ("rows", "both") else 1.0 for _ in range(n)]
     cs = [2.0 ** r.randint(-spread, spread) if mode in ("cols", "both") else 1.0 for _ in range(n)]
     return {(i, j): (v[0] * rs[i] * cs[j], v[1] * rs[i] * cs[j]) for (i, j), v in A.items()}
@@ -423,12 +423,44 @@ def fam_gssvx(g, prop, count, types, nmax=7, spread=8):
 FACT = {"DOFACT": 0, "SamePattern": 1, "SamePattern_SameRowPerm": 2, "FACTORED": 3}
 
 
+def fam_factored(g, prop, count, types):
+    """factor once with equilibration on a matrix scaled so that each outcome N / R / C / B occurs, then solve with the
+    supplied factors (Fact = FACTORED) for every Trans with fresh right-hand sides; the scale-factor array that the
+    documentation calls 'not accessed' for that equed holds illegal values"""
+    out = {}
+    for ty, k in split_types(count, types).items():
+        cplx = is_cplx(ty)
+        lst = []
+        for i in range(k):
+            r = g.r
+            n = r.randint(2, 6)
+            mode = ["none", "rows", "cols", "both"][i % 4]
+            A = scaled_matrix(g, n, cplx, 8, mode=mode)
+            fmt = r.choice(["NC", "NC", "NR"])
+            o = gssvx_opts(g, Equil=1, IterRefine=r.choice([0, 1]))
+            if cplx and fmt == "NR" and o["Trans"] == 2:
+                o["Trans"] = 1
+            B = g.rhs_for(A, n, 1, cplx, op=o["Trans"] if (cplx or o["Trans"] != 2) else 1)
+            lines = ["tune " + " ".join(map(str, g.tune()))] + g.mat_lines(A, n, n, fmt, cplx) + g.rhs_lines(B, n, 1, n, cplx) + opt_lines(o)
+            lines += gssvx_block(work=None, events=0) + ["requireok"]
+            for tr in r.sample([0, 1, 2], 2):
+                if cplx and fmt == "NR" and tr == 2:
+                    tr = 1
+                nrhs = r.choice([1, 2])
+                Bk = g.rhs_for(A, n, nrhs, cplx)
+                lines += ["poisonscale"] + opt_lines({"Fact": 3, "Trans": tr, "IterRefine": r.choice([0, 1])}) + g.rhs_lines(Bk, n, nrhs, n + r.choice([0, 1]), cplx) + gssvx_block(work=None, events=0)
+            lines += ["destroy all", "ledger"]
+            lst.append({"id": "%s-factored%s-%05d-%s" % (prop, mode, i, ty), "lines": lines, "n": n})
+        out[ty] = lst
+    return out
+
+
 def history_scenario(g, sid, ty, hist, userwork=False):
     """one TLC-generated history (list of [kind, change]) as a harness script on one sparsity pattern"""
     r = g.r
     cplx = is_cplx(ty)
     n = r.randint(2, 6)
-    A = scaled_matrix(g, n, cplx, r.choice([0, 2]))
+    A = scaled_matrix(g, n, cplx, r.choice([0, 2, 8, 8]))       # spread 8: equilibration really happens (equed R / C / B)
     pattern = sorted(A)
     fmt = r.choice(["NC", "NC", "NR"])
     tune = g.tune()
@@ -464,6 +496,8 @@ def history_scenario(g, sid, ty, hist, userwork=False):
             if kind in ("DOFACT", "SamePattern") and not first:
                 lines.append("destroy LU")
         tr = r.choice([0, 1] if (cplx and fmt == "NR") else [0, 1, 2])     # (complex, NR, CONJ) is a known finding of C05
+        if kind == "FACTORED" and r.random() < 0.7:
+            lines.append("poisonscale")        # R (C) is "not accessed" unless equed says it was used
         lines += opt_lines({"Fact": FACT[kind], "Trans": tr})
         Bk = g.rhs_for(A, n, 1, cplx)          # any right-hand side
         lines += g.rhs_lines(Bk, n, 1, n, cplx)
@@ -698,6 +732,30 @@ def fam_slowrefine(g, prop, count, types):
             lines = ["tune " + " ".join(map(str, g.tune()))] + g.mat_lines(A, n, n, fmt, cplx) + g.rhs_lines(B, n, nrhs, n, cplx) + opt_lines(o)
             lines += gssvx_block(work=None, events=8) + ["destroy all", "ledger"]
             lst.append({"id": "%s-slowrefine-%05d-%s" % (prop, i, ty), "lines": lines, "n": n})
+        out[ty] = lst
+    return out
+
+
+def fam_cond_big(g, prop, count, types):
+    """condition estimate and growth factor on systems of order 8..14 factored with narrow supernodes (maxsuper 2..3, no
+    relaxation): the estimator's solves run through several multi-column supernodes and singletons per call"""
+    out = {}
+    for ty, k in split_types(count, types).items():
+        cplx = is_cplx(ty)
+        lst = []
+        for i in range(k):
+            r = g.r
+            n = r.randint(8, 14)
+            A = g.lu_product(n, cplx) if r.random() < 0.6 else scaled_matrix(g, n, cplx, r.choice([0, 3]))
+            tune = [r.randint(1, 4), 1, r.choice([2, 2, 3]), r.randint(1, 4), r.randint(1, 3), 30, r.randint(1, 6)]
+            o = gssvx_opts(g, Cond=1, PivotGrowth=1, IterRefine=r.choice([0, 1]), Equil=r.choice([0, 1]), ColPerm=NATURAL)
+            fmt = r.choice(["NC", "NC", "NR"])
+            if cplx and fmt == "NR" and o["Trans"] == 2:
+                o["Trans"] = 1
+            B = g.rhs_for(A, n, 1, cplx, op=o["Trans"] if (cplx or o["Trans"] != 2) else 1)
+            lines = ["tune " + " ".join(map(str, tune))] + g.mat_lines(A, n, n, fmt, cplx) + g.rhs_lines(B, n, 1, n, cplx) + opt_lines(o)
+            lines += gssvx_block(work=None, events=0) + ["destroy all", "ledger"]
+            lst.append({"id": "%s-condbig-%05d-%s" % (prop, i, ty), "lines": lines, "n": n})
         out[ty] = lst
     return out
 
@@ -962,6 +1020,43 @@ def fam_ilu(g, prop, count, types, nmax=8):
             lines = ["tune " + " ".join(map(str, g.tune()))] + g.mat_lines(A, n, n, fmt, cplx) + g.rhs_lines(B, n, nrhs, n, cplx) + opt_lines(o)
             lines += gssvx_block(work=None, events=0, fn="gsisx") + ["destroy all", "ledger"]
             lst.append({"id": "%s-ilu%s%s-%05d-%s" % (prop, kind, "nodrop" if nodrop else "", i, ty), "lines": lines, "n": n})
+        out[ty] = lst
+    return out
+
+
+def fam_ilu_reuse(g, prop, count, types):
+    """incomplete factorization histories on one pattern: DOFACT, then SamePattern_SameRowPerm / SamePattern with other
+    values (what is dropped, hence the supernode partition and the fill, changes from call to call), then a solve with
+    the supplied factors; every call is held to the clauses of a single call"""
+    out = {}
+    for ty, k in split_types(count, types).items():
+        cplx = is_cplx(ty)
+        lst = []
+        for i in range(k):
+            r = g.r
+            n = r.randint(5, 14)
+            dens = r.uniform(0.15, 0.5)
+            P = {(a, a) for a in range(n)} | {(a, b) for a in range(n) for b in range(n) if r.random() < dens}
+
+            def vals():
+                return {kk: ((8.0 if kk[0] == kk[1] else 2.0 ** -r.choice([0, 1, 2, 4, 6, 8])) * r.choice([1, -1]), 0.0) for kk in P}
+            A = vals()
+            o = {"iludefault": 0, "ColPerm": r.choice([NATURAL, COLAMD]), "RowPerm": 0, "Equil": r.choice([0, 1]), "DropTol": float(r.choice([2.0 ** -5, 2.0 ** -3, 0.25])),
+                 "DropRule": r.choice([DROP_BASIC, DROP_BASIC | DROP_AREA, DROP_BASIC | DROP_PROWS, DROP_BASIC | DROP_AREA | DROP_INTERP]), "MILU": r.choice([0, 0, 1, 2]),
+                 "Trans": r.choice([0, 1]), "PivotGrowth": 0, "Cond": 0, "u": float(r.choice([1.0, 0.125]))}
+            B = g.rhs_for(A, n, 1, cplx)
+            lines = ["tune " + " ".join(map(str, g.tune()))] + g.mat_lines(A, n, n, "NC", cplx) + g.rhs_lines(B, n, 1, n, cplx) + opt_lines(o)
+            lines += gssvx_block(work=None, events=0, fn="gsisx")
+            for step in range(r.choice([1, 2, 3])):
+                kind = r.choice([2, 2, 1, 3])
+                lines.append("requireok")
+                if kind != 3:
+                    lines.append("newvals " + g.mat_lines(vals(), n, n, "NC", cplx)[3])
+                if kind == 1:
+                    lines.append("destroy LU")
+                lines += opt_lines({"Fact": kind}) + g.rhs_lines(g.rhs_for(A, n, 1, cplx), n, 1, n, cplx) + gssvx_block(work=None, events=0, fn="gsisx")
+            lines += ["destroy all", "ledger"]
+            lst.append({"id": "%s-ilureuse-%05d-%s" % (prop, i, ty), "lines": lines, "n": n})
         out[ty] = lst
     return out
 
@@ -1239,7 +1334,7 @@ def fam_readers(g, prop, count, types, outdir):
                     re = float("%.*e" % (digits, vals[p][0])); im = float("%.*e" % (digits, vals[p][1]))
                     ents.append((p[0], p[1], re, im))
                 if fmt == "mm":
-                    iowrite.write_mm(path, n, ents, cplx, sym, comments=r.randint(0, 3), digits=digits)
+                    iowrite.write_mm(path, n, ents, cplx, sym, comments=r.randint(0, 3), digits=digits, case=r.choice([0, 0, 1, 2, 3]))
                 else:
                     base = r.choice([0, 1])
                     if base == 0:      # zero-based files are recognised by a zero index in the first entry
